@@ -185,25 +185,22 @@ def convert (s : State) : State :=
 def convertCollides (s : State) : Bool :=
   !s.full && decide (¬ ((convert s).kids.map (·.cell)).Nodup)
 
-/-- `restorePreviousGeometry(r)`. Second component: the call raised (`for b in None` when no
-assembly sits on the centre cell; state as left behind by the statements before it). -/
-def restore (s : State) : State × Bool :=
+/-- `restorePreviousGeometry(r)` (after the fix `if a is not None`: a core without centre assembly has nothing
+to rescale; the changer is reset in every case). -/
+def restore (s : State) : State :=
   if !s.convAdded.isEmpty then
     let kids1 := s.kids.filter (fun a => !s.convAdded.contains a.id)
-    let s1 := { s with kids := kids1, full := false, flag := true }
-    if occupied kids1 (0, 0) then
-      ({ s1 with kids := kids1.map (fun a => if isCentre a.cell && s.convList then scalePar (1 / 3) a else a),
-                 convAdded := [] }, false)
-    else (s1, true)
-  else ({ s with convAdded := [] }, false)
+    { s with kids := kids1.map (fun a => if isCentre a.cell && s.convList then scalePar (1 / 3) a else a),
+             full := false, flag := true, convAdded := [] }
+  else { s with convAdded := [] }
 
 inductive Op | convert | restore | addEdge | removeEdge
 deriving DecidableEq, Repr
 
-/-- one operation; a raising `restore` leaves its partial state (the harness stops a sequence there) -/
+/-- one operation -/
 def step (s : State) : Op → State
   | .convert => convert s
-  | .restore => (restore s).1
+  | .restore => restore s
   | .addEdge => addEdge s
   | .removeEdge => removeEdge s
 
